@@ -5,3 +5,4 @@ pub mod exec;
 pub mod r#gen;
 pub mod sched;
 pub mod util;
+pub mod v3;
